@@ -625,6 +625,16 @@ class Interp:
                 return self._succ(l, env.canon(e))
             if op == "+" and r[0] == ORD and l[0] == SYM and l[1].endswith("MIN_TD"):
                 return self._succ(r, env.canon(e))
+            if op == "+" and l[0] == ORD and r[0] == NUM and 1 <= r[1] <= 3:
+                v = l
+                for _ in range(r[1]):
+                    v = self._succ(v, env.canon(e))
+                return v
+            if op == "+" and r[0] == ORD and l[0] == NUM and 1 <= l[1] <= 3:
+                v = r
+                for _ in range(l[1]):
+                    v = self._succ(v, env.canon(e))
+                return v
             if l[0] == NUM and r[0] == NUM:
                 return (NUM, l[1] + r[1] if op == "+" else l[1] - r[1])
             if l[0] == ORD or r[0] == ORD:
